@@ -6,6 +6,7 @@
    Models, one action per call / decision point:
 
      iroh/src/endpoint.rs  Endpoint::connect_with_opts (1092-1155)
+        ClosedCheck        `if self.is_closed() { return Err(EndpointClosed) }`: nothing else happens on a closed endpoint
         BeforeConnect(i)   EndpointHooksList::before_connect: hook i is called with the primary ALPN; the first
                            Reject ends the attempt with ConnectWithOptsError::LocallyRejected, later hooks are not
                            called (iroh/src/endpoint/hooks.rs 144-158)
@@ -41,6 +42,7 @@ CONSTANTS Scenarios
 (* a scenario: [reg    : set of protocols registered with the router,
                 offers : sequence of protocols the dialer offers (primary first; "" = empty protocol name),
                 self   : dialing its own id,
+                closed : the dialing endpoint was closed before the call,
                 filt   : [on : BOOLEAN, v1 : verdict for an unvalidated Incoming, v2 : verdict for a validated one],
                 ch, sh : sequences of hooks on the dialing / accepting endpoint,
                          hook = [before : "A" | "R", after : 0 (accept) | close code (reject)]] *)
@@ -72,22 +74,27 @@ Finish(r) == result' = r /\ stage' = "done"
 
 ---------------------------------------------------------------------------
 (* the dialer: Endpoint::connect_with_opts *)
+ClosedCheck ==
+  /\ stage = "before" /\ scn.closed /\ Finish("EndpointClosed")
+  /\ UNCHANGED <<scn, validated, passed, negotiated, cside, ci, sside, si, clientSaw, handlerSaw,
+                 cBefore, cAfter, sAfter, filterLog, hlog>>
+
 BeforeConnect(i) ==
-  /\ stage = "before" /\ ci = i /\ i <= Len(scn.ch)
+  /\ stage = "before" /\ ~scn.closed /\ ci = i /\ i <= Len(scn.ch)
   /\ cBefore' = Append(cBefore, [i |-> i, alpn |-> Primary])
   /\ IF scn.ch[i].before = "R" THEN Finish("LocallyRejected") /\ UNCHANGED ci
                                 ELSE ci' = i + 1 /\ UNCHANGED <<result, stage>>
   /\ UNCHANGED <<scn, validated, passed, negotiated, cside, sside, si, clientSaw, handlerSaw, cAfter, sAfter, filterLog, hlog>>
 
 BeforeDone ==
-  /\ stage = "before" /\ ci > Len(scn.ch) /\ stage' = "precheck" /\ ci' = 1
+  /\ stage = "before" /\ ~scn.closed /\ ci > Len(scn.ch) /\ stage' = "precheck" /\ ci' = 1
   /\ UNCHANGED <<scn, validated, passed, negotiated, cside, sside, si, result, clientSaw, handlerSaw,
                  cBefore, cAfter, sAfter, filterLog, hlog>>
 
 Failing == (IF scn.self THEN {"SelfConnect"} ELSE {}) \cup (IF Primary = "" THEN {"InvalidAlpn"} ELSE {})
 Precheck ==
   /\ \/ stage = "precheck"
-     \/ stage = "before" /\ cBefore = <<>> /\ Failing # {}       \* order of hooks and preconditions is not fixed
+     \/ stage = "before" /\ ~scn.closed /\ cBefore = <<>> /\ Failing # {}       \* order of hooks and preconditions is not fixed
   /\ IF Failing # {} THEN \E f \in Failing : Finish(f)
                      ELSE stage' = "dial" /\ UNCHANGED result
   /\ UNCHANGED <<scn, validated, passed, negotiated, cside, ci, sside, si, clientSaw, handlerSaw,
@@ -182,7 +189,7 @@ ClientSees ==
   /\ UNCHANGED <<scn, stage, validated, passed, negotiated, cside, ci, sside, si, result, handlerSaw,
                  cBefore, cAfter, sAfter, filterLog, hlog>>
 
-Next == (\E i \in 1..2 : BeforeConnect(i)) \/ BeforeDone \/ Precheck \/ Incoming \/ Filter \/ RetryRoundTrip
+Next == ClosedCheck \/ (\E i \in 1..2 : BeforeConnect(i)) \/ BeforeDone \/ Precheck \/ Incoming \/ Filter \/ RetryRoundTrip
         \/ Handshake \/ (\E i \in 1..2 : CAfter(i)) \/ CEstablished \/ Dispatch \/ (\E i \in 1..2 : SAfter(i))
         \/ HandlerAccept \/ ServerLost \/ HandlerSees \/ ClientSees
 Spec == Init /\ [][Next]_vars
@@ -198,7 +205,7 @@ Accepted == \E k \in DOMAIN hlog : hlog[k].ev = "accept"
 \* only the handler registered for the negotiated protocol ever sees the connection, and that protocol was offered
 OnlyTheNegotiatedHandler == \A k \in DOMAIN hlog : hlog[k].h = negotiated /\ negotiated \in scn.reg /\ negotiated \in Range(scn.offers)
 \* no handler if nothing registered matches, or the filter refused / ignored, or the connect never left the dialer
-NoHandlerWithoutPass == Handled => passed /\ Mutual # {} /\ result \notin {"Refused", "NoResponse", "NoAlpn", "LocallyRejected", "SelfConnect", "InvalidAlpn"}
+NoHandlerWithoutPass == Handled => passed /\ Mutual # {} /\ result \notin {"Refused", "NoResponse", "NoAlpn", "LocallyRejected", "SelfConnect", "InvalidAlpn", "EndpointClosed"}
 \* a connection the filter asked to retry reaches a handler only if its validated retry was accepted
 RetryNeedsValidatedAccept == (Handled /\ scn.filt.on /\ scn.filt.v1 = "Retry") => validated /\ scn.filt.v2 = "Accept" /\ filterLog = <<FALSE, TRUE>>
 \* an established dialer ends up with exactly that handler: it is closed with the handler's own code
@@ -211,15 +218,17 @@ FilterAcceptReaches == (Terminal /\ passed /\ Mutual # {}) => Handled \/ sside =
 AllBeforeAccept == \A i \in DOMAIN scn.ch : scn.ch[i].before = "A"
 AllAfterAccept(hooks) == \A i \in DOMAIN hooks : hooks[i].after = 0
 \* the dialer has a connection only if every one of its hooks accepted and the preconditions hold
-EstablishedOnlyIfAllAccept == cside = "established" => AllBeforeAccept /\ AllAfterAccept(scn.ch) /\ ~scn.self /\ Primary # ""
+EstablishedOnlyIfAllAccept == cside = "established" => AllBeforeAccept /\ AllAfterAccept(scn.ch) /\ ~scn.self /\ Primary # "" /\ ~scn.closed
 \* the accepting side hands a connection to the protocol only if every one of its hooks accepted
 AcceptOnlyIfAllAccept == Accepted => AllAfterAccept(scn.sh)
 \* a before_connect rejection stops the attempt before anything is sent
 BeforeRejectStops == ~AllBeforeAccept => stage \in {"before", "done"} /\ filterLog = <<>> /\ negotiated = "" /\ hlog = <<>>
-                                           /\ result \in {"", "LocallyRejected", "SelfConnect", "InvalidAlpn"}
+                                           /\ result \in {"", "LocallyRejected", "SelfConnect", "InvalidAlpn", "EndpointClosed"}
 \* own id or empty protocol name: never leaves the dialer, always an error
 PreconditionsGate == (scn.self \/ Primary = "") => stage \in {"before", "precheck", "done"} /\ filterLog = <<>> /\ hlog = <<>>
-                                                   /\ result \in {"", "LocallyRejected", "SelfConnect", "InvalidAlpn"}
+                                                   /\ result \in {"", "LocallyRejected", "SelfConnect", "InvalidAlpn", "EndpointClosed"}
+\* a closed endpoint does not connect, and asks no hook
+ClosedGate == scn.closed => stage \in {"before", "done"} /\ result \in {"", "EndpointClosed"} /\ cBefore = <<>> /\ filterLog = <<>> /\ hlog = <<>>
 \* hooks are called in order and not after a rejection
 ShortCircuit == /\ \A k \in DOMAIN cBefore : cBefore[k].i = k /\ (k < Len(cBefore) => scn.ch[k].before = "A")
                 /\ \A k \in DOMAIN cAfter : cAfter[k] = k /\ (k < Len(cAfter) => scn.ch[k].after = 0)
